@@ -38,6 +38,13 @@ impl ResolvedCalendarFields {
         if partial_date.calendar.is_iso() {
             let month_code = resolve_iso_month(partial_date, overflow)?;
             let day = resolve_day(partial_date.day, resolve_type == ResolutionType::YearMonth)?;
+            // NOTE: The days-in-month equations are only defined (and overflow free) for years
+            // around the supported range; no valid value lies outside of it.
+            if !(-271_821..=275_760).contains(&era_year.year) {
+                return Err(
+                    TemporalError::range().with_message("year is not within the valid range.")
+                );
+            }
             let day = if overflow == ArithmeticOverflow::Constrain {
                 constrain_iso_day(era_year.year, month_code.to_month_integer(), day)
             } else {
